@@ -91,6 +91,151 @@ def oracle(case: dict) -> Outcome:
     return out
 
 
+# --------------------------------------------------------------------------- shards and metadata taken from real FSDP
+def strategy_real():
+    from hypothesis import strategies as st
+
+    return st.fixed_dictionaries({
+        "S": st.sampled_from([2, 2, 3, 4]),
+        "layers": st.lists(st.tuples(st.integers(1, 6), st.integers(1, 6), st.booleans()), min_size=1, max_size=3),
+        "cfg_seed": st.integers(0, 10**5), "steps": st.integers(2, 4), "mpd": st.sampled_from([2, 3, 4, 1024]), "graft": st.sampled_from(["sgd", "adagrad", "none"]),
+    })
+
+
+def oracle_real(case: dict) -> Outcome:
+    """Wrap a real nn.Sequential in torch FSDP(use_orig_params=True) on the simulator, take the local flat shards and
+    compile_fsdp_parameter_metadata(model) from it, check the metadata against the shard contents, and run FSDP Shampoo against the
+    serial optimizer on the reference decomposition of exactly those shards."""
+    import torch
+    from torch.distributed.fsdp import FullyShardedDataParallel as FSDP
+
+    from distributed_shampoo.shampoo_types import FSDPShampooConfig
+    from distributed_shampoo.utils.shampoo_fsdp_utils import compile_fsdp_parameter_metadata
+
+    from .. import sim
+    from . import c06, c15
+
+    out = Outcome()
+    S = case["S"]
+    dims = []
+    fin = case["layers"][0][0]
+    for (a, b, bias) in case["layers"]:
+        dims.append((fin, b, bias))
+        fin = b
+    cfg = dict(c06._BASE_CFG, mpd=case["mpd"], graft=(None if case["graft"] == "none" else ({"type": "sgd"} if case["graft"] == "sgd" else {"type": "adagrad", "eps": 1e-8})), start=2)
+
+    def build_model() -> torch.nn.Module:
+        g = torch.Generator().manual_seed(case["cfg_seed"])
+        m = torch.nn.Sequential(*[torch.nn.Linear(i, o, bias=b) for (i, o, b) in dims])
+        with torch.no_grad():
+            for p in m.parameters():
+                p.copy_(torch.randn(p.shape, generator=g))
+        return m
+
+    full = {n: p.detach().clone() for n, p in build_model().named_parameters()}
+    names = list(full)
+
+    def grads_for(t: int) -> dict:
+        g = torch.Generator().manual_seed(case["cfg_seed"] * 7 + t)
+        return {n: torch.randn(full[n].shape, generator=g) for n in names}
+
+    def fn(rank: int, world: Any) -> dict:
+        m = FSDP(build_model(), use_orig_params=True, device_id=torch.device("cpu"))
+        md = compile_fsdp_parameter_metadata(m)
+        params = [p for p in m.parameters()]
+        meta = []
+        for p in params:
+            v = md[p]
+            meta.append((v.fqn, tuple(v.shape), v.numel, v.start_idx, v.end_idx, p.numel(), p.detach().clone()))
+        live = [p for p in params]
+        if not any(p.numel() for p in params):
+            for t in range(case["steps"]):
+                world.barrier(("A", t))
+            return {"meta": meta, "snaps": [], "skip": True}
+        opt = gen.build_optimizer(live, cfg, distributed_config=FSDPShampooConfig(param_to_metadata=md))
+        snaps = []
+        for t in range(case["steps"]):
+            gr = grads_for(t)
+            for p in params:
+                v = md[p]
+                key = v.fqn.replace("_fsdp_wrapped_module.", "")
+                p.grad = gr[key].reshape(-1)[v.start_idx:v.end_idx].clone() if p.numel() else None
+            opt.step()
+            world.barrier(("A", t))
+            snaps.append([p.detach().clone() for p in params])
+        return {"meta": meta, "snaps": snaps, "skip": False}
+
+    results, errors, alive, world = sim.run_world(S, fn)
+    real = {r: e for r, e in errors.items() if e != "abort"}
+    if not real and (world.deadlock is not None or any(r is None for r in results)):
+        raise RuntimeError(f"real-FSDP world did not complete (harness problem): deadlock={world.deadlock} errors={errors}")
+    if real:
+        r0 = sorted(real)[0]
+        if "Some workers have no parameters" in real[r0] or "AssertionError" in real[r0].split("\n")[0]:
+            out.classes.append("some_rank_without_block")
+            return out
+        out.fail("C07.real.rank_raises", "a simulated rank raised " + real[r0].split("\n")[0], real[r0][-1500:])
+        return out
+    midrow = False
+    for r, res in enumerate(results):
+        if res is None:
+            continue
+        for (fqn, shape, numel, a, b, pn, pdata) in res["meta"]:
+            key = fqn.replace("_fsdp_wrapped_module.", "")
+            if key not in full:
+                out.fail("C07.real.metadata", "metadata names an unknown parameter", fqn)
+                return out
+            if tuple(full[key].shape) != shape or full[key].numel() != numel:
+                out.fail("C07.real.metadata", "metadata shape / numel differ from the original parameter", f"{fqn}: {shape} {numel}")
+            if b - a != pn:
+                out.fail("C07.real.metadata", "end_idx - start_idx differs from the local shard's numel", f"rank {r} {fqn}: [{a},{b}) vs {pn}")
+                continue
+            if pn and not torch.equal(pdata, full[key].reshape(-1)[a:b]):
+                out.fail("C07.real.metadata", "the local shard is not original.flatten()[start:end]", f"rank {r} {fqn}: [{a},{b})")
+            row = math.prod(shape[1:]) if len(shape) > 1 else 1
+            if pn and len(shape) > 1 and (a % row or b % row):
+                midrow = True
+    # every element of every parameter is in exactly one rank's shard
+    for key in names:
+        cov = torch.zeros(full[key].numel(), dtype=torch.int64)
+        for res in results:
+            for (fqn, shape, numel, a, b, pn, pdata) in (res or {"meta": []})["meta"]:
+                if fqn.replace("_fsdp_wrapped_module.", "") == key and pn:
+                    cov[a:b] += 1
+        if not bool((cov == 1).all()):
+            out.fail("C07.real.coverage", "shards do not cover every element of the original parameter exactly once", key)
+    if out.failures:
+        return out
+    # serial oracle per rank on the reference decomposition of exactly these shards
+    for r, res in enumerate(results):
+        if res is None or res["skip"]:
+            continue
+        units = []
+        for pi, (fqn, shape, numel, a, b, pn, pdata) in enumerate(res["meta"]):
+            key = fqn.replace("_fsdp_wrapped_module.", "")
+            for (x, y, shp) in c15.reference_cuts(tuple(shape), a, b):
+                units.append((pi, key, x, y, shp))
+        sp = [torch.nn.Parameter(full[key].reshape(-1)[x:y].clone().reshape(shp)) for (pi, key, x, y, shp) in units]
+        if not sp:
+            continue
+        opt = gen.build_optimizer(sp, cfg)
+        for t in range(case["steps"]):
+            gr = grads_for(t)
+            for p, (pi, key, x, y, shp) in zip(sp, units):
+                p.grad = gr[key].reshape(-1)[x:y].clone().reshape(shp)
+            opt.step()
+            for pi, (fqn, shape, numel, a, b, pn, pdata) in enumerate(res["meta"]):
+                parts = [p.detach().reshape(-1) for p, u in zip(sp, units) if u[0] == pi]
+                want = torch.cat(parts) if parts else torch.empty(0)
+                got = res["snaps"][t][pi]
+                if want.shape != got.shape or not rm.bitwise_equal(want, got):
+                    out.fail("C07.real.equals_serial", "real-FSDP shard differs from the single-process optimizer on the recovered sub-tensors", f"rank {r} step {t + 1} {fqn}")
+                    return out
+    out.nontrivial = midrow
+    out.classes += [f"S{S}", "mid_row_boundary" if midrow else "aligned_boundaries"]
+    return out
+
+
 PROBES = {
     "F5": ("worlds", {"flavour": "hsdp", "R": 2, "S": 1, "G": -1, "comm_params": False, "comm_dtype": "default",
                       "cfg": {"lr": 0.0078125, "beta1": 0.9, "beta2": 1.0, "beta3": -1.0, "epsilon": 1e-6, "momentum": 0.0, "dampening": 0.0, "nesterov": False, "wd": 0.0,
@@ -104,4 +249,5 @@ PROBES = {
 STREAMS = {
     "worlds": Stream("worlds", oracle=oracle, strategy=strategy, quick=480, thorough=0, shards_quick=16, shards_thorough=16),
     "worlds_large": Stream("worlds_large", oracle=oracle, strategy=strategy_thorough, quick=0, thorough=5000, shards_quick=16, shards_thorough=16),
+    "real_fsdp": Stream("real_fsdp", oracle=oracle_real, strategy=strategy_real, quick=48, thorough=1500, shards_quick=8, shards_thorough=16),
 }
